@@ -171,12 +171,18 @@ func smtInt(v string) (*big.Int, bool) {
 }
 
 func replayViolation(id, name, why string, r *SolveResult, repo string) (string, bool) {
-	if r == nil || r.Result != "sat" {
+	if r == nil {
 		return writeReplay(id, name, why, r, "no model available (solver answer: not sat): no executable failing input"), false
 	}
 	tpl := filepath.Join(verifDir, "replay_templates", sanitize(r.Func)+".tmpl")
 	delete(templateOnly, tpl)
 	pkgDir, inputs, body, err := parseTemplate(tpl)
+	if r.Result != "sat" && (err != nil || len(inputs) > 0) {
+		// without a model only a scenario template (one that needs no model values: a fixed
+		// sequence of operations on the real code that exhibits the failure the obligation
+		// guards against) can be run
+		return writeReplay(id, name, why, r, "no model available (solver answer: not sat): no executable failing input"), false
+	}
 	if only := templateOnly[tpl]; err == nil && len(only) > 0 {
 		applies := false
 		for _, frag := range only {
@@ -208,7 +214,11 @@ func replayViolation(id, name, why string, r *SolveResult, repo string) (string,
 			terms = append(terms, in.Term)
 		}
 	}
-	vals, sout, err := getValues(r, terms)
+	var vals map[string]string
+	var sout string
+	if len(terms) > 0 {
+		vals, sout, err = getValues(r, terms)
+	}
 	if err != nil {
 		return writeReplay(id, name, why, r, "could not read model values back: "+err.Error()+"\n"+truncate(sout, 2000)), false
 	}
